@@ -833,12 +833,98 @@ func enumDesc(s *tbin.Shape, v *tbin.Val, n int, yield func(core.Case) bool) boo
 				if err != nil || !tutil.AnyEqual(back, goval) {
 					r.Add("WriteAnyWithDesc|"+keyClass(s)+"|readback-differs", "%s: read back %#v err %v want %#v", in, back, err, goval)
 				}
+				// the same value with its integer-keyed maps held as map[int8|int16|int32|int64]interface{} (every
+				// width the keys fit into, whatever the width of the descriptor's key type): same bytes
+				for _, w := range []int{8, 16, 32, 64} {
+					sized, changed, fits := retypeIntKeys(goval, w)
+					if !changed || !fits {
+						continue
+					}
+					p2 := &thrift.BinaryProtocol{}
+					if err := p2.WriteAnyWithDesc(d, sized, !u8, true, byName); err != nil {
+						r.Add("WriteAnyWithDesc|"+keyClass(s)+fmt.Sprintf(",go-keys-int%d", w)+"|error", "%s: %v", in, err)
+						continue
+					}
+					if got2, err := tbin.DecodeAll(p2.Buf, v.T); err != nil {
+						r.Add("WriteAnyWithDesc|"+keyClass(s)+fmt.Sprintf(",go-keys-int%d", w)+"|malformed", "%s written from %#v: output %s does not decode: %v (want %s)", in, sized, hex(p2.Buf), err, hex(ref))
+					} else if !tutil.EqualUnordered(got2, want) {
+						r.Add("WriteAnyWithDesc|"+keyClass(s)+fmt.Sprintf(",go-keys-int%d", w)+"|value-differs", "%s written from %#v: output decodes to %s want %s", in, sized, got2, want)
+					}
+				}
 			})) {
 				return false
 			}
 		}
 	}
 	return true
+}
+
+// retypeIntKeys rebuilds a generic Go value with every map[int]interface{} turned into the sized key type of the
+// given width. changed: at least one map was rebuilt; fits: every key fits the width.
+func retypeIntKeys(x interface{}, w int) (out interface{}, changed, fits bool) {
+	fits = true
+	var walk func(x interface{}) interface{}
+	walk = func(x interface{}) interface{} {
+		switch m := x.(type) {
+		case []interface{}:
+			o := make([]interface{}, len(m))
+			for i, e := range m {
+				o[i] = walk(e)
+			}
+			return o
+		case map[string]interface{}:
+			o := map[string]interface{}{}
+			for k, e := range m {
+				o[k] = walk(e)
+			}
+			return o
+		case map[thrift.FieldID]interface{}:
+			o := map[thrift.FieldID]interface{}{}
+			for k, e := range m {
+				o[k] = walk(e)
+			}
+			return o
+		case map[interface{}]interface{}:
+			o := map[interface{}]interface{}{}
+			for k, e := range m {
+				o[k] = walk(e)
+			}
+			return o
+		case map[int]interface{}:
+			changed = true
+			switch w {
+			case 8:
+				o := map[int8]interface{}{}
+				for k, e := range m {
+					fits = fits && int(int8(k)) == k
+					o[int8(k)] = walk(e)
+				}
+				return o
+			case 16:
+				o := map[int16]interface{}{}
+				for k, e := range m {
+					fits = fits && int(int16(k)) == k
+					o[int16(k)] = walk(e)
+				}
+				return o
+			case 32:
+				o := map[int32]interface{}{}
+				for k, e := range m {
+					fits = fits && int(int32(k)) == k
+					o[int32(k)] = walk(e)
+				}
+				return o
+			}
+			o := map[int64]interface{}{}
+			for k, e := range m {
+				o[int64(k)] = walk(e)
+			}
+			return o
+		}
+		return x
+	}
+	out = walk(x)
+	return
 }
 
 func enumSkip(s *tbin.Shape, v *tbin.Val, n int, yield func(core.Case) bool) bool {
@@ -1071,6 +1157,10 @@ func enumEncoding(yield func(core.Case) bool) {
 			}
 			if got := c.get(append([]byte{}, ref...)); !tutil.AnyEqual(got, c.want) {
 				r.Add("enc:"+c.name+"|readback-differs", "%s: got %#v want %#v", c.v, got, c.want)
+			}
+			// the value at a fixed offset of a larger buffer: other encoded values follow it
+			if got := c.get(append(append([]byte{}, ref...), 0, 0, 0, 3, 1, 2, 3, 0xAB)); !tutil.AnyEqual(got, c.want) {
+				r.Add("enc:"+c.name+"|readback-differs-when-other-bytes-follow", "%s followed by 8 more bytes: got %#v want %#v", c.v, got, c.want)
 			}
 		})) {
 			return
